@@ -125,6 +125,10 @@ impl Ob {
             Some(&b) => format!("{}", b),
         }
     }
+    /// marker suffix of observations whose CONTENT depends on the hash order of the run (column
+    /// order of a freshly fitted vocabulary): compared exactly, but a difference is reported
+    /// without content so that the violation text is reproducible
+    pub const OPAQUE: &'static str = "(hash_order_of_this_run)";
     /// first difference between two observations: (name, description)
     pub fn diff(&self, other: &Ob) -> Option<(String, String)> {
         for i in 0..self.0.len().max(other.0.len()) {
@@ -132,6 +136,9 @@ impl Ob {
                 (Some(a), Some(b)) => {
                     if a.0 != b.0 {
                         return Some((a.0.clone(), format!("observation list diverges: original has `{}`, restored has `{}`", a.0, b.0)));
+                    }
+                    if a.2 != b.2 && a.0.ends_with(Ob::OPAQUE) {
+                        return Some((a.0.clone(), format!("`{}` differs between original and restored (the content depends on the hash order of this run and is not shown)", a.0)));
                     }
                     if a.2 != b.2 {
                         let at = (0..a.2.len().max(b.2.len())).find(|&k| a.2.get(k) != b.2.get(k)).unwrap();
@@ -188,6 +195,9 @@ pub struct Spec<'a, T> {
     pub nontrivial: bool,
     /// documented refusal: serialising this value must fail (e.g. `Error::NdShape` is `serde(skip)`)
     pub expect_ser_refusal: bool,
+    /// the Debug text depends on the hash order of the run (column indices of a freshly fitted
+    /// vocabulary): it is compared, but a difference is reported without quoting it
+    pub opaque_debug: bool,
 }
 
 #[derive(Default, Clone, Debug)]
@@ -221,11 +231,72 @@ pub struct Out {
     /// per format: round trips done
     pub per_format: std::collections::BTreeMap<&'static str, u64>,
     pub sample: Option<Value>,
+    /// field audit: path of every serialised leaf field -> was it ever seen with a value that
+    /// differs from what `Default` would give (0, false, None, "", empty)? A field that all
+    /// instances of an entry leave at its default could be dropped by a round trip unnoticed.
+    pub fields: std::collections::BTreeMap<String, bool>,
+}
+
+/// feeds a value that does not go through `round_trip` (hand-written guard scenarios) to the field audit
+pub fn audit<T: Serialize>(o: &mut Out, v: &T) {
+    let mut buf = Vec::new();
+    if ciborium::ser::into_writer(v, &mut buf).is_ok() {
+        if let Ok(tree) = ciborium::de::from_reader::<ciborium::value::Value, _>(&buf[..]) {
+            audit_walk(&tree, "", &mut o.fields);
+        }
+    }
+}
+
+/// fields through which a type contains itself (Box recursion): their segment is dropped from the
+/// audit path so that all nodes of a tree are audited as one struct
+const RECURSIVE_FIELDS: [&str; 2] = ["left_child", "right_child"];
+
+fn audit_walk(v: &ciborium::value::Value, path: &str, out: &mut std::collections::BTreeMap<String, bool>) {
+    use ciborium::value::Value as V;
+    let mut leaf = |nondefault: bool| {
+        let e = out.entry(path.to_string()).or_insert(false);
+        *e = *e || nondefault;
+    };
+    match v {
+        V::Integer(i) => leaf(i128::from(*i) != 0),
+        V::Float(f) => leaf(*f != 0.0),
+        V::Bool(b) => leaf(*b),
+        V::Null => leaf(false),
+        V::Text(t) => leaf(!t.is_empty()),
+        V::Bytes(b) => leaf(!b.is_empty()),
+        V::Tag(_, inner) => audit_walk(inner, path, out),
+        V::Array(a) => {
+            if a.is_empty() {
+                leaf(false);
+            }
+            for x in a {
+                audit_walk(x, &format!("{}[]", path), out);
+            }
+        }
+        V::Map(m) => {
+            if m.is_empty() {
+                leaf(false);
+            }
+            for (k, x) in m {
+                match k {
+                    V::Text(t) if RECURSIVE_FIELDS.contains(&t.as_str()) => {
+                        // presence of a child is itself a field value (Option<Box<..>>)
+                        let e = out.entry(format!("{}.{}", path, t)).or_insert(false);
+                        *e = *e || !matches!(x, V::Null);
+                        audit_walk(x, path, out)
+                    }
+                    V::Text(t) => audit_walk(x, &format!("{}.{}", path, t), out),
+                    _ => audit_walk(x, &format!("{}.*", path), out),
+                }
+            }
+        }
+        _ => leaf(true),
+    }
 }
 
 impl Out {
     pub fn new(entry: &str, instance: &str) -> Out {
-        Out { entry: entry.to_string(), instance: instance.to_string(), variant: crate::data::variant(), viols: Vec::new(), cnt: Counters::default(), per_format: Default::default(), sample: None }
+        Out { entry: entry.to_string(), instance: instance.to_string(), variant: crate::data::variant(), viols: Vec::new(), cnt: Counters::default(), per_format: Default::default(), sample: None, fields: Default::default() }
     }
     pub fn case(&self, format: &str) -> Value {
         json!({"entry": self.entry, "instance": self.instance, "variant": self.variant, "format": format})
@@ -306,6 +377,11 @@ pub fn round_trip<T: Serialize + DeserializeOwned>(o: &mut Out, spec: &Spec<T>, 
             }
         };
         o.cnt.bytes += bytes.len() as u64;
+        if f == Format::Cbor {
+            if let Ok(tree) = ciborium::de::from_reader::<ciborium::value::Value, _>(&bytes[..]) {
+                audit_walk(&tree, "", &mut o.fields);
+            }
+        }
         let restored: T = match guarded(|| f.de::<T>(&bytes)) {
             Ok(Ok(r)) => r,
             Ok(Err(e)) => {
@@ -371,7 +447,9 @@ fn compare<T>(o: &mut Out, spec: &Spec<T>, v: &T, restored: &T, obs0: &Ob, dbg0:
             o.cnt.debug_checked += 1;
             let d1 = d(restored);
             let same = if mode == DebugMode::Exact { d1 == d0 } else { sorted_lines(&d1) == sorted_lines(d0) };
-            if !same {
+            if !same && spec.opaque_debug {
+                o.viol(&format!("{}debug_repr_differs", stage), fname, "Debug output differs between original and restored (its text depends on the hash order of this run and is not quoted)".to_string());
+            } else if !same {
                 let (a, b) = if mode == DebugMode::Exact { (d0.to_string(), d1.clone()) } else { (sorted_lines(d0), sorted_lines(&d1)) };
                 let at = a.char_indices().zip(b.char_indices()).find(|(x, y)| x.1 != y.1).map(|(x, _)| x.0).unwrap_or(a.len().min(b.len()));
                 let lo = a[..at.min(a.len())].char_indices().rev().nth(60).map(|x| x.0).unwrap_or(0);
@@ -415,7 +493,7 @@ pub fn dbg_pretty<T: std::fmt::Debug>(x: &T) -> String {
 impl<'a, T: std::fmt::Debug> Spec<'a, T> {
     /// type with Debug but without (usable) PartialEq
     pub fn plain(observe: &'a dyn Fn(&T) -> Ob) -> Spec<'a, T> {
-        Spec { eq: None, observe, debug: Some(dbg_of::<T>), debug_mode: DebugMode::Exact, fixed_point: Ok(()), json: false, nontrivial: true, expect_ser_refusal: false }
+        Spec { eq: None, observe, debug: Some(dbg_of::<T>), debug_mode: DebugMode::Exact, fixed_point: Ok(()), json: false, nontrivial: true, expect_ser_refusal: false, opaque_debug: false }
     }
 }
 impl<'a, T: std::fmt::Debug + PartialEq> Spec<'a, T> {
@@ -437,6 +515,10 @@ impl<'a, T> Spec<'a, T> {
     }
     pub fn json(mut self) -> Self {
         self.json = true;
+        self
+    }
+    pub fn opaque_debug(mut self) -> Self {
+        self.opaque_debug = true;
         self
     }
     pub fn trivial(mut self) -> Self {
